@@ -851,12 +851,7 @@ class C14(Prop):
           if any(v > incounts.get(k, 0) for k, v in counts.items()):
             fail('selector-duplicates:' + c['cls'], '%s returned an input more often than it was given' % c['cls'])
       elif c['mod'] in ('mutators', 'recombinators') and dna_in:
-        # precondition "valid and correctly aligned": also every node must be *bound* to the decision
-        # point of its position (a Swap of two equal-valued entries leaves to_dict() unchanged although
-        # the nodes are bound cross-wise; what a later operator makes of that is F21, not its own fault)
-        if not all(self.bound_ok(case['spec'], d) for d in ins):
-          tainted = True
-        elif all(self.is_valid(spec, d) and self.is_aligned(spec, d) for d in ins):
+        if all(self.is_valid(spec, d) and self.is_aligned(spec, d) for d in ins):
           for d in outs:
             if not isinstance(d, pg.DNA) or not self.is_valid(spec, d):
               fail('invalid-child:' + c['cls'], '%s produced %r, not valid for the spec, from valid parents %r' % (
